@@ -1670,6 +1670,8 @@ class Interp(object):
         return self.comprehension(e.elt, e.generators, env)
 
     def comprehension(self, elt, gens, env):
+        if len(gens) == 2 and not gens[0].ifs and not gens[1].ifs:
+            return self.comprehension2(elt, gens, env)
         if len(gens) != 1:
             raise Unsupported("nested comprehension")
         g = gens[0]
@@ -1705,6 +1707,41 @@ class Interp(object):
             if ok:
                 out.append(self.eval(elt, e2))
         return out
+
+    def comprehension2(self, elt, gens, env):
+        """[elt for a in A for b in B] with B not depending on a: the row-major product sequence"""
+        g1, g2 = gens
+        s1 = self.iterate(self.eval(g1.iter, env))
+        s2 = self.iterate(self.eval(g2.iter, env))
+        if not isinstance(s1, SymIter) and not isinstance(s2, SymIter):
+            out = []
+            for v1 in s1:
+                e1 = Env(parent=env, kind='func')
+                self.assign_target(g1.target, v1, e1)
+                for v2 in self.iterate(self.eval(g2.iter, e1)):
+                    e2 = Env(parent=e1, kind='func')
+                    self.assign_target(g2.target, v2, e2)
+                    out.append(self.eval(elt, e2))
+            return out
+        names1 = {n.id for n in ast.walk(g1.target) if isinstance(n, ast.Name)}
+        if any(isinstance(n, ast.Name) and n.id in names1 for n in ast.walk(g2.iter)):
+            raise Unsupported("nested comprehension whose inner sequence depends on the outer variable")
+        n1 = s1.length if isinstance(s1, SymIter) else len(s1)
+        n2 = s2.length if isinstance(s2, SymIter) else len(s2)
+        el1 = s1.element if isinstance(s1, SymIter) else (lambda k: self.lib.select_concrete_seq(self, s1, k))
+        el2 = s2.element if isinstance(s2, SymIter) else (lambda k: self.lib.select_concrete_seq(self, s2, k))
+        q, m = self.lib.block_coords(self, n1, n2, 'comp')
+
+        def elem(k):
+            e2 = Env(parent=env, kind='func')
+            self.pure_depth += 1
+            try:
+                self.assign_target(g1.target, el1(q(k)), e2)
+                self.assign_target(g2.target, el2(m(k)), e2)
+                return self.eval(elt, e2)
+            finally:
+                self.pure_depth -= 1
+        return self.lib.SList(z3.simplify(to_num(n1) * to_num(n2)), elem)
 
     def eval_DictComp(self, e, env):
         if len(e.generators) != 1:
